@@ -139,7 +139,7 @@ def run_target(reg, key, n=300, seed=0, seconds=20.0, clause_idx=None, gen_overr
         if not ok:
             continue
         out['accepted'] += 1
-        old_args = copy.deepcopy(args)
+        old_args = {p: from_json(v, reg.builders) for p, v in model.items()}
         raised = None
         result = None
         try:
